@@ -802,7 +802,24 @@ class Engine:
             return z3.fpMul(RNE, x, y)
         f = self.ghost.setdefault("fpmul_uf", z3.Function("fpmul", F64, F64, F64))
         self.stats["opaque_fp"] = self.stats.get("opaque_fp", 0) + 1
-        return f(x, y)
+        r = f(x, y)
+        if self.cfg.get("fp_axioms", True):
+            big = z3.FPVal(1e150, F64)
+            zero = z3.FPVal(0.0, F64)
+            one = z3.FPVal(1.0, F64)
+            ax, ay = z3.fpAbs(x), z3.fpAbs(y)
+            small = z3.And(z3.fpLEQ(ax, big), z3.fpLEQ(ay, big))
+            # sound facts about IEEE-754 multiplication (RNE)
+            self.assume_global(z3.Implies(small, z3.And(z3.Not(z3.fpIsNaN(r)), z3.Not(z3.fpIsInf(r)), z3.fpLEQ(z3.fpAbs(r), z3.FPVal(1e300, F64)))), "fpmul: finite for |operands| <= 1e150")
+            self.assume_global(z3.Implies(z3.And(small, z3.Or(z3.fpIsZero(x), z3.fpIsZero(y))), z3.fpIsZero(r)), "fpmul: zero operand")
+            self.assume_global(z3.Implies(z3.And(small, z3.fpGEQ(x, zero), z3.fpGEQ(y, zero)), z3.fpGEQ(r, zero)), "fpmul: sign")
+            self.assume_global(z3.Implies(z3.And(small, z3.fpLEQ(x, zero), z3.fpGEQ(y, zero)), z3.fpLEQ(r, zero)), "fpmul: sign")
+            self.assume_global(z3.Implies(z3.And(small, z3.fpGEQ(x, zero), z3.fpLEQ(y, zero)), z3.fpLEQ(r, zero)), "fpmul: sign")
+            self.assume_global(z3.Implies(z3.And(small, z3.fpLEQ(x, zero), z3.fpLEQ(y, zero)), z3.fpGEQ(r, zero)), "fpmul: sign")
+            # |x*y| <= |x| when |y| <= 1 (rounding is monotone and |x|*1 is exact), and symmetrically
+            self.assume_global(z3.Implies(z3.And(small, z3.fpLEQ(ay, one)), z3.fpLEQ(z3.fpAbs(r), ax)), "fpmul: |x*y| <= |x| for |y| <= 1")
+            self.assume_global(z3.Implies(z3.And(small, z3.fpLEQ(ax, one)), z3.fpLEQ(z3.fpAbs(r), ay)), "fpmul: |x*y| <= |y| for |x| <= 1")
+        return r
 
     def fp_div(self, x, y):
         mode = self.cfg.get("fp_mul", "exact")
@@ -812,7 +829,19 @@ class Engine:
             return z3.fpDiv(RNE, x, y)
         f = self.ghost.setdefault("fpdiv_uf", z3.Function("fpdiv", F64, F64, F64))
         self.stats["opaque_fp"] = self.stats.get("opaque_fp", 0) + 1
-        return f(x, y)
+        r = f(x, y)
+        if self.cfg.get("fp_axioms", True) and self.is_fp_const(y):
+            c = float(str(z3.simplify(z3.fpToReal(y)).as_decimal(30)).rstrip("?")) if False else None
+            zero = z3.FPVal(0.0, F64)
+            yabs_ge1 = z3.simplify(z3.fpGEQ(z3.fpAbs(y), z3.FPVal(1.0, F64)))
+            if z3.is_true(yabs_ge1):
+                fin = z3.And(z3.Not(z3.fpIsNaN(x)), z3.Not(z3.fpIsInf(x)))
+                self.assume_global(z3.Implies(fin, z3.And(z3.Not(z3.fpIsNaN(r)), z3.Not(z3.fpIsInf(r)), z3.fpLEQ(z3.fpAbs(r), z3.fpAbs(x)))), "fpdiv by constant |c| >= 1: finite, |x/c| <= |x|")
+                ypos = z3.is_true(z3.simplify(z3.fpGT(y, zero)))
+                if ypos:
+                    self.assume_global(z3.Implies(z3.And(fin, z3.fpGEQ(x, zero)), z3.fpGEQ(r, zero)), "fpdiv: sign")
+                    self.assume_global(z3.Implies(z3.And(fin, z3.fpLEQ(x, zero)), z3.fpLEQ(r, zero)), "fpdiv: sign")
+        return r
 
     @staticmethod
     def is_fp_const(x):
